@@ -34,7 +34,7 @@ CLAIMED = {
              'NASA-9 and Shomate evaluators are linear in the coefficients and satisfy d(T*HoRT)/dT = CpoR '
              'and dSoR/dT = CpoR/T slot by slot, that GoRT = HoRT - SoR with identical arguments, that '
              'Nasa.get_a picks the right segment on all 7 orderings of T against T_low<T_mid<T_high, that '
-             'Nasa9._get_nasa returns the containing segment and refuses temperatures outside every segment '
+             'Nasa9 evaluates the containing segment and refuses temperatures outside every segment '
              '(1-4 segments, every position), and that array evaluation equals element-wise evaluation '
              '(bounded unrolling, lengths 1-3 quick / 1-5 thorough).',
         note=STATIC_NOTE + 'Identities are over the reals; IEEE rounding and non-numeric T are not decided. '
@@ -141,7 +141,7 @@ CLAIMED = {
         ref='DESIGN.md section 4 C06'),
     'C07': dict(
         technique='abstract interpretation of the OpenMKM/Cantera writers and emitters: option values of every kind '
-                  'through _assign_yaml_val, write_yaml with yaml.dump as a recording serialiser, write_cti/'
+                  'through write_yaml with yaml.dump as a recording serialiser, write_cti/'
                   'write_thermo_yaml with marker objects, species/phase/reaction/BEP/interaction emitters over abstract '
                   'strings and dictionaries; Python\'s evaluate-defaults-once semantics modelled for shared mutable defaults',
         text='Decides (a) that an operating value of any kind (Python or NumPy number, string, string with units, list, '
@@ -200,13 +200,13 @@ CLAIMED = {
              'contract); averaging of unequal reference temperatures is not decided.',
         ref='DESIGN.md section 4 C10'),
     'C13': dict(
-        technique='abstract interpretation of the empirical getters with the attached models as an uninterpreted vector '
-                  '(any number/order) and with the real GasPressureAdj/PiecewiseCovEffect through the real '
-                  '_get_mix_quantity; interpretation of EmpiricalBase.__init__ over the finite case matrix; '
+        technique='abstract interpretation of the empirical getters with 0-3 attached models whose getters are '
+                  'uninterpreted and with the real GasPressureAdj/PiecewiseCovEffect, both through the package\'s own '
+                  'aggregation over misc_models; interpretation of EmpiricalBase.__init__ over the finite case matrix; '
                   'interpretation of direct to_dict/from_dict cycles',
         text='Decides for Nasa, Nasa9, Shomate x CpoR/HoRT/SoR/GoRT that the value is the bare polynomial plus the sum '
              'over every attached model at the same temperature and conditions, for scalar T and for every element of '
-             'arrays (lengths 1-3 quick, 1-5 thorough), for any number and order of models; with real models S = poly '
+             'arrays (lengths 1-3 quick, 1-5 thorough), for 0-3 attached models; with real models S = poly '
              '- ln P, H = poly + coverage energy/RT, Cp unchanged, G = H - S in both orders; that construction over 9 '
              'phase spellings x misc_models forms x add_gas_P_adj yields exactly one pressure adjustment for gas species '
              'unless disabled, none otherwise, other models kept once; and that direct to_dict/from_dict cycles (twice) '
@@ -257,13 +257,13 @@ CLAIMED = {
              'of static analysis.',
         ref='DESIGN.md section 4 C16'),
     'C17': dict(
-        technique='abstract interpretation of the real constructor/insert/pop/_set_intercepts/get_UoRT under an '
+        technique='abstract interpretation of the real constructor/insert/pop/get_UoRT under an '
                   'ordering oracle, exhaustive enumeration of operation sequences up to a bound, comparison with a '
                   'reference sorted pair list',
         text='For 1-3 initial breakpoints and every sequence of up to 2 (quick) / 3 (thorough) inserts (below, between, '
              'equal to, above the existing breakpoints) and pops, decides symbolically (all slopes, all breakpoint '
-             'values consistent with the ordering) that breakpoints stay ascending, slopes stay paired, intercepts '
-             'satisfy the continuity recurrence starting at 0, and get_UoRT on, between and beyond breakpoints is '
+             'values consistent with the ordering) that breakpoints stay ascending, slopes stay paired, '
+             'and get_UoRT on, between and beyond breakpoints (continuous, starting at 0) is '
              'slope*x+intercept of the containing piece over RT, independent of T; S=Cv=Cp=0; to_dict/from_dict '
              'rebuilds the same lists.',
         note=STATIC_NOTE + 'Bounded in the number of operations (stated); np.argmax modelled as first-True-or-0.',
